@@ -320,13 +320,18 @@ func checkC16(c *Ctx) {
 	}
 	model = c.Model(lines)
 	for i, p := range plive {
-		for variant := 0; variant < 2; variant++ {
+		for variant := 0; variant < 4; variant++ {
 			var impl string
 			consumed := 0
 			msg, pan := safely(func() {
 				var rd io.Reader = bytes.NewReader(p.b)
-				if variant == 1 {
+				switch variant {
+				case 1:
 					rd = iotest.OneByteReader(rd)
+				case 2:
+					rd = iotest.DataErrReader(rd) // the last bytes arrive together with io.EOF (the body of an HTTP request does that)
+				case 3:
+					rd = iotest.HalfReader(rd)
 				}
 				cont, err := util.NewTLV8ContainerFromReader(rd)
 				if err != nil {
@@ -362,6 +367,53 @@ func checkC16(c *Ctx) {
 				// direct oracle: nothing that was not in the input
 				if !bytes.Equal(out, p.b) {
 					c.Violate("tlv8 parser yields data that was not in the input", p.id, lines[i], hx(p.b), hx(out))
+				}
+				// what a getter hands out belongs to the caller: written to, wiped, appended to — the container is
+				// what it was
+				for tg := range tags {
+					outs := [][]byte{cont.GetBytes(tg)}
+					if gb, ok := cont.(interface {
+						GetBuffer(uint8) *bytes.Buffer
+					}); ok {
+						outs = append(outs, gb.GetBuffer(tg).Bytes())
+					}
+					for n, got := range outs {
+						for k := range got {
+							got[k] = ^got[k] + byte(n) // not an involution when both results are the same memory
+						}
+						_ = append(got, 0xEE, 0xEE, 0xEE)
+					}
+				}
+				if again := cont.BytesBuffer().Bytes(); !bytes.Equal(again, out) {
+					c.Violate("a tlv8 container changes when the caller writes to what a getter returned", p.id, lines[i], hx(out), hx(again))
+				}
+				// a container that was read is then written to (SetString / SetBytes / SetByte): it serialises to what it was
+				// read from followed by the encoding of what was set (set_after_parse)
+				rr := rand.New(rand.NewSource(int64(i)*4 + int64(variant)))
+				var added []tlvOp
+				for k := rr.Intn(3); k > 0; k-- {
+					tg := byte(rr.Intn(4))
+					v := randBytes(rr, []int{0, 1, 3, 254, 255, 256, 300}[rr.Intn(7)])
+					switch rr.Intn(3) {
+					case 0:
+						for j := range v {
+							v[j] = 'a' + v[j]%26
+						}
+						cont.SetString(tg, string(v))
+					case 1:
+						cont.SetBytes(tg, v)
+					default:
+						if len(v) == 0 {
+							v = []byte{7}
+						}
+						v = v[:1]
+						cont.SetByte(tg, v[0])
+					}
+					added = append(added, tlvOp{tg, append([]byte{}, v...)})
+				}
+				if want, got := append(append([]byte{}, out...), refTlvEncode(added)...), cont.BytesBuffer().Bytes(); !bytes.Equal(got, want) {
+					c.Violate("a tlv8 container that was read and then written to does not serialise to what it was read from followed by what was set", p.id,
+						map[string]interface{}{"read_from": hx(p.b), "then_set": tlvOpsLine(added)}, hx(want), hx(got))
 				}
 			})
 			if pan {
